@@ -8,6 +8,9 @@ only = sys.argv[1:]
 def one(d):
     meta = json.load(open(os.path.join(d, "meta.json")))
     pid = meta["property"]
+    if meta.get("caught_by_own_check") is False and meta.get("checks_that_fire"):
+        # documented as decided by a sibling property's check only (DESIGN.md 11f): that check must fire
+        pid = sorted(meta["checks_that_fire"])[0]
     wt = tempfile.mkdtemp(prefix="vso-", dir="/tmp"); os.rmdir(wt)
     ev = tempfile.mkdtemp(prefix="vsoev-", dir="/tmp")
     try:
